@@ -117,11 +117,21 @@ fn spline_lanes<T: Fl>(x: &[f64]) -> Vec<LaneSpec> {
     let big = Poly([2.0f64.powi(41), -1.0, 0.5, 2.0]);
     // ... nor may two small, fine-grained signals (bits far below the ulp of 2^41)
     let fine = [Poly([1.0 / 1024.0, 0.5 / 1024.0, -0.125 / 1024.0, 1.0 / 65536.0]), Poly([-2.0 / 8192.0, 0.75 / 8192.0, 0.0, 0.0])];
-    for p in std::iter::once(big).chain(fine).chain(Poly::all(3)) {
+    // per interval [u, v]: the cubic (x-m)^3 - a^2 (x-m) (m the midpoint, a the half width) has equal
+    // values *and* equal slopes at u and v although it is not flat in between
+    let c = CENTER.with(|c| c.get());
+    let sym: Vec<Poly> = x
+        .windows(2)
+        .map(|w| {
+            let (m, a) = ((w[0] + w[1]) / 2.0 - c, (w[1] - w[0]) / 2.0);
+            Poly([-m * m * m + a * a * m, 3.0 * m * m - a * a, -3.0 * m, 1.0])
+        })
+        .collect();
+    for p in std::iter::once(big).chain(fine).chain(sym).chain(Poly::all(3)) {
         // the data must be exactly representable
         let ys: Option<Vec<T>> = x
             .iter()
-            .map(|&xi| exact_f64(p.at(Rat::from_f64(xi))).and_then(T::from_f64_exact))
+            .map(|&xi| try_exact(|| p.at(Rat::from_f64(xi))).and_then(exact_f64).and_then(T::from_f64_exact))
             .collect();
         if ys.is_none() {
             continue;
@@ -669,6 +679,14 @@ fn body(ctx: &Ctx) -> (Summary, Meta) {
         for a in &sp {
             jobs.push(Job { ax: a.clone(), kind: Kind::Spline, f32, center: 0.0 });
         }
+        // nearly even axes: spacing 1/2 with a jitter of 2^-32 (only polynomials whose samples are exact
+        // take part: straight lines)
+        let jit = 2.0f64.powi(-32);
+        for w in [vec![0.5, 0.5 + jit, 0.5, 0.5 - jit / 2.0, 0.5], vec![0.5 + jit, 0.5, 0.5, 0.5, 0.5 - jit, 0.5, 0.5 + jit / 4.0]] {
+            if !f32 {
+                jobs.push(Job { ax: alpha::axis_from_word("nearly-even", 0.0, &w), kind: Kind::Spline, f32, center: 0.0 });
+            }
+        }
         // axes far from the origin (|x| / h about 2^21) with spacings that are not powers of two; the
         // polynomials are taken in (x - first knot)
         for w in [vec![3.0, 6.0, 1.5, 3.0], vec![1.5, 1.5, 3.0, 6.0, 3.0], vec![6.0, 3.0, 3.0], vec![3.0, 3.0, 3.0, 3.0, 3.0, 1.5]] {
@@ -720,7 +738,7 @@ fn body(ctx: &Ctx) -> (Summary, Meta) {
         out
     }));
     let meta = Meta {
-        rule: "all 256 polynomials with coefficients in {-1,0,1/2,2} of degree <= 3; per axis ONE Individual build whose lanes are every (polynomial, left condition, right condition) with conditions the polynomial satisfies (NotAKnot for n>=4, FirstDeriv(p'), SecondDeriv(p''), Natural iff p''=0, Clamped iff p'=0; n=3: one NotAKnot end + a derivative end, both NotAKnot for degree<=2) - so every lane has its own boundary pair and values - plus the whole-data-set NotAKnot default, row-level NotAKnot and Natural-for-lines builds; affine functions for Linear; all 256 forms a+bx+cy+dxy for Bilinear; queries: in-range grid (4 per interval) and 4 extrapolated ones. Spline jobs also on axes 3*2^20 away from the origin with spacings 1.5 / 3 / 6 (polynomials in x - x0), and with a first lane whose values are near 2^41. Oracle: exact polynomial value. Non-trivial = degree >= 2 (spline), degree 1 (Linear), d != 0 (Bilinear). Phase integer-element-types (i32, i64 incl. constant terms 2^30+1 / 2^60+1; u32, u64 on non-negative data rising along both axes, in-range queries): every interval word over {1,2,3} (1..3 (4) intervals, 2 offsets), Linear on a + b x (25 coefficient pairs) and Bilinear on all 256 forms with coefficients in {-1,0,1,2}, extrapolation on, every integer query from 3 (2) below to 3 (2) above the range; all divisions are exact there, slack 1 unit.".into(),
+        rule: "all 256 polynomials with coefficients in {-1,0,1/2,2} of degree <= 3; per axis ONE Individual build whose lanes are every (polynomial, left condition, right condition) with conditions the polynomial satisfies (NotAKnot for n>=4, FirstDeriv(p'), SecondDeriv(p''), Natural iff p''=0, Clamped iff p'=0; n=3: one NotAKnot end + a derivative end, both NotAKnot for degree<=2) - so every lane has its own boundary pair and values - plus the whole-data-set NotAKnot default, row-level NotAKnot and Natural-for-lines builds; affine functions for Linear; all 256 forms a+bx+cy+dxy for Bilinear; queries: in-range grid (4 per interval) and 4 extrapolated ones. Per interval one cubic with equal values and equal slopes at both ends of that interval; nearly even axes (1/2 +- 2^-32, straight lines). Spline jobs also on axes 3*2^20 away from the origin with spacings 1.5 / 3 / 6 (polynomials in x - x0), and with a first lane whose values are near 2^41. Oracle: exact polynomial value. Non-trivial = degree >= 2 (spline), degree 1 (Linear), d != 0 (Bilinear). Phase integer-element-types (i32, i64 incl. constant terms 2^30+1 / 2^60+1; u32, u64 on non-negative data rising along both axes, in-range queries): every interval word over {1,2,3} (1..3 (4) intervals, 2 offsets), Linear on a + b x (25 coefficient pairs) and Bilinear on all 256 forms with coefficients in {-1,0,1,2}, extrapolation on, every integer query from 3 (2) below to 3 (2) above the range; all divisions are exact there, slack 1 unit.".into(),
         bounds: format!("{njobs} (type, axis/grid, strategy) jobs; tier {}", ctx.tier.name()),
         assumptions: vec!["tolerance K eps scale inside, 16 K eps scale |t|^3 outside, with scale = max(|y_i|, |h_i p'(x_i)|, |p(q)|)".into()],
         extra: vec![],
